@@ -99,6 +99,17 @@ def response_hazards() -> Iterator[bytes]:
         + rr(nm(b"pending", b"_c", b"_tcp", b"local"), 33, 0x8001, 120, struct.pack(">HHH", 0, 0, 80) + nm(e63, e63, e63, e63, b"local"))
 
 
+def recased() -> Iterator[bytes]:
+    """Valid announcements that spell a browsed type in other letter case than the application did (names are compared
+    case-insensitively everywhere else: the cache files them under the browsed type)."""
+    for owner in ("_C._TCP.local.", "_c._tcp.LOCAL.", "_C._tcp.local."):
+        for inst in (CANARY_INST, "Canary._C._tcp.local.", "other._c._tcp.local."):
+            for ttl in (4500, 120):
+                yield wire.response([("PTR", owner, 1, ttl, inst)])
+                yield wire.response([("PTR", owner, 1, ttl, inst), ("SRV", inst, 0x8001, 120, 0, 0, 80, "hc.local."),
+                                     ("TXT", inst, 0x8001, 4500, b""), ("A", "hc.local.", 0x8001, 120, bytes([10, 0, 0, 66]))])
+
+
 def oversize() -> Iterator[bytes]:
     q = wire.query([("Q", TA, 12, 1)], id_=5)
     r = wire.response([("PTR", TB, 1, 4500, "big._b._tcp.local.")])
@@ -130,6 +141,7 @@ def corpus(tier: str) -> List[Tuple[str, bytes]]:
     out += [("hazard", d) for d in echo_hazards()]
     out += [("rhazard", d) for d in response_hazards()]
     out += [("oversize", d) for d in oversize()]
+    out += [("recased", d) for d in recased()]
     out += [("family", d) for d in D.families("quick")]
     nseeds = 3 if tier == "quick" else len(seeds)
     for s in seeds[:nseeds]:
@@ -213,7 +225,7 @@ def canary(w: World, host: Any, lst: Lst, problems: List[str]) -> None:
                 answered = True
     if not answered:
         problems.append("canary: a well-formed query sent afterwards was not answered within 2 s")
-    if CANARY_INST not in lst.added:
+    if CANARY_INST not in [n.lower() for n in lst.added]:  # (an instance reported before in other letter case is the same one)
         problems.append("canary: an announcement sent afterwards did not reach the browser")
     if lst.lookup_errors:
         problems.append(f"exception: {lst.lookup_errors[0][:300]}")
